@@ -43,6 +43,28 @@ def _canon(n):
     return n
 
 
+def fill(n):
+    """a case recorded before properties carried has_default / disabled: add the fields (TLC's records of one
+    family have the same fields); in place, returns n"""
+    k = n.get("kind")
+    if k == "list":
+        fill(n["items"])
+    elif k == "map":
+        fill(n["keys"]); fill(n["vals"])
+    elif k == "object":
+        for p in n["props"]:
+            p.setdefault("has_default", False)
+            p.setdefault("disabled", False)
+            fill(p["type"])
+    elif k == "scope":
+        for o in n["objects"]:
+            fill(o)
+    elif k == "oneof":
+        for m in n["members"]:
+            fill(m["obj"])
+    return n
+
+
 def _denote(n, table):
     k = n["kind"]
     if k == "object":
@@ -92,8 +114,9 @@ def focus(a, b, with_path=False):
             if key in seen:
                 return None
             seen.add(key)
-            hx = (ox["id"], ox["id_unenforced"], [(p["name"], p["required"]) for p in ox["props"]])
-            hy = (oy["id"], oy["id_unenforced"], [(p["name"], p["required"]) for p in oy["props"]])
+            flags = lambda p: (p["name"], p["required"], p.get("has_default", False), p.get("disabled", False))
+            hx = (ox["id"], ox["id_unenforced"], [flags(p) for p in ox["props"]])
+            hy = (oy["id"], oy["id_unenforced"], [flags(p) for p in oy["props"]])
             if hx != hy:
                 return ox, oy, (path if kx == "object" else here)
             for px, py in zip(ox["props"], oy["props"]):
@@ -197,6 +220,30 @@ def has_cycle(n, table=None, stack=()):
     return False
 
 
+def features(n, out=None):
+    """property flags occurring anywhere in the schema (for the signature of a reflexivity failure)"""
+    out = set() if out is None else out
+    k = n["kind"]
+    if k == "list":
+        features(n["items"], out)
+    elif k == "map":
+        features(n["keys"], out); features(n["vals"], out)
+    elif k == "object":
+        for p in n["props"]:
+            if p.get("disabled"):
+                out.add("disabled_property")
+            if p.get("has_default"):
+                out.add("default")
+            features(p["type"], out)
+    elif k == "scope":
+        for o in n["objects"]:
+            features(o, out)
+    elif k == "oneof":
+        for m in n["members"]:
+            features(m["obj"], out)
+    return out
+
+
 FRAME_KIND = {"Int": "int", "Float": "float", "String": "string", "Map": "map", "Bool": "bool",
               "Pattern": "pattern", "Any": "any", "Object": "object", "Ref": "ref", "Scope": "scope",
               "OneOf": "oneof", "AbstractList": "list", "List": "list", "Property": "property", "Enum": "enum"}
@@ -210,6 +257,10 @@ def signature(case, divergence, frame="", detail=""):
         differences are irrelevant to it;
       * panic: the kind named by the panicking SDK function and the bounds pattern of the first pair of
         corresponding nodes of that kind with partly set bounds to which a range test applies;
+      * an error for a pair that has to be accepted (the same schema on both sides): the two sides do not
+        differ anywhere, so the wrappers above and their bounds say nothing about the defect; if the schema
+        carries property flags (disabled, default) the signature names the object kind and the flags
+        ("self:disabled_property"), else the top kinds and "self";
       * otherwise: the nodes at which the two schemas differ."""
     if divergence in ("stack_overflow", "hang", "fatal"):
         side = lambda n: "recursive_scope" if has_cycle(n) else "acyclic"
@@ -232,6 +283,12 @@ def signature(case, divergence, frame="", detail=""):
             cands = [c for c in cands if applies(*c)] or cands
             if cands:
                 sig.update(consumer=kind, producer=kind, bounds=bounds_pattern(*cands[0]))
+    elif divergence == "rejects" and _canon(case["a"]) == _canon(case["b"]):
+        feats = features(case["a"])
+        sig["bounds"] = ""
+        sig["rule"] = "self" + (":" + "+".join(sorted(feats)) if feats else "")
+        if feats:
+            sig["consumer"] = sig["producer"] = "object"
     elif divergence in ("accepts", "rejects"):
         sig["rule"] = "+".join(sorted(case.get("rules") or []))
     return sig
@@ -381,7 +438,7 @@ def run(ctx):
     thorough = ctx.tier == "thorough"
     stats = {}
     ctx.rule = ("every state of CompatMC is one case (consumer, producer, mode): all ordered pairs of the "
-                "generated universe at depth 1, same-family and representative cross-family pairs under 7 "
+                "generated universe (objects with required x default x disabled property flags included) at depth 1, same-family and representative cross-family pairs under 7 "
                 "wrappers at depth 2, under wrapper pairs at depth 3; modes direct / same instance / producer or "
                 "consumer rebuilt from its description; each case = %d calls of ValidateCompatibility; plus seeded "
                 "random pairs (depth <= 5) validated by CompatTrace.  distinct = distinct (consumer AST, producer "
@@ -422,7 +479,11 @@ def run(ctx):
     ctx.assumptions += [
         "well-formed schemas only: min <= max where both are set, non-empty enums and one-ofs, map keys "
         "int/string/enum, unique object IDs per scope, every reference and root resolves, one-of members do "
-        "not declare the discriminator field (not inlined); bounds are non-negative",
+        "not declare the discriminator field (not inlined); bounds are non-negative; defaults are declared on "
+        "properties of scalar kinds only (int, float, string, bool, enums), rendered as a value of the type",
+        "'lacking a required one' is read on the two schemas alone: a consumer property that is required is "
+        "required whether or not it also declares a default or is disabled; a disabled property refuses DATA, "
+        "it does not make the schema incompatible with itself or its rebuilt copy",
         "base kind is taken with the SDK's affinities (integer{int,enum_int}, string{string,enum_string}, "
         "object{object,ref,scope}); any on either side and integer<->float are unconstrained",
         "'missing members' is read as: a key of the consumer's one-of is absent from the producer's; whether "
@@ -438,6 +499,7 @@ def replay(ctx, rp):
     case = rp["replay"].get("case")
     if case is None:
         raise common.Infra("replay file has no case")
+    fill(case["a"]); fill(case["b"])
     stats = {}
     results = run_cases(ctx, [case], "replay", reps=max(200, REPS[ctx.tier]))
     lines = consume(ctx, [case], results, stats)
